@@ -1,6 +1,7 @@
 import Heathcliff.Proofs.C05U
 import Heathcliff.Model.Evaluator
 import Heathcliff.Proofs.C07L
+import Heathcliff.Proofs.GenEval
 namespace HC.C05
 /-- the level walk of `mod_switch_to` / `rescale_to` refuses upward targets -/
 theorem switch_up_refused {cur tgt : Nat} (h : cur < tgt) : switchSteps cur tgt = .error .refused := by
@@ -97,5 +98,14 @@ theorem switchTo_walk : type_of% @HC.switchTo_walk := @HC.switchTo_walk
 /-- U4: on a well-formed chain every downward walk succeeds and ends exactly on the target level (canonical there), for the plain
     drop and for the three scheme-specific switches -/
 theorem switchTo_ends_on_target : type_of% @HC.switchTo_ends_on_target := @HC.switchTo_ends_on_target
+
+/-! ### translator tie (phase 3): the decision skeleton of `Evaluator::mod_switch_to_inplace` (src/evaluator.rs) generated into
+     Gen/EvalFns.lean equals `switchSteps` (Proofs/GenEval.lean).  The ciphertext / context objects are opaque to the translator; the
+     table of `tools/rs2lean.py` spells out the TRUSTED reading of the accessors (levels are identified by their chain index; one
+     `mod_switch_to_next_inplace` moves the ciphertext exactly one chain index down or panics).  Tied by the proof: the guard and its
+     direction (`cur < tgt` refused), the loop condition, one step per iteration, the visited indices and the final level.
+     `cur < 2^64`: a chain index is a `usize` (the fuel of the generated loop). -/
+theorem gen_mod_switch_to_inplace_eq (cur tgt : Nat) (hc : cur < 2^64) :
+    HC.GenE.mod_switch_to_inplace cur tgt = HC.switchSteps cur tgt := HC.gy_mod_switch_to_inplace_eq cur tgt hc
 
 end HC.C05
